@@ -209,9 +209,6 @@ def settle : Nat → Net → Net × Bool
     let net' := sweep net
     if net'.map (·.2) = net.map (·.2) then (net, true) else settle fuel net'
 
-/-- fixed point of the node-wise re-evaluation -/
-def Stable (net : Net) : Prop := ∀ x, x < net.length → stepNode net x = (net.getD x default).2
-
 /-! ### line protocol: `NETX <node>;<node>;…` with node = id,p1,cls,acc,var,p2,slaveOnly,alive,port:port:… and
 port = seg.masterOnly.attached -/
 
